@@ -117,8 +117,8 @@ Definition node_index (s : ast) (id : Z) : Z :=
 Definition set_deadline (x : hnode) (dl : Z) : hnode :=
   mkH (mkNode (nid (hn x)) dl (nper (hn x))) (hidx x).
 
-(* trigger(now): the loop, one iteration per unit of fuel.  maxId is nextId read at entry. *)
-Fixpoint atrigger (fuel : nat) (now maxId : Z) (arr outside : list hnode) (refer : list Z) (out : list deliv)
+(* trigger(now): the loop, one iteration per unit of fuel *)
+Fixpoint atrigger (fuel : nat) (now : Z) (arr outside : list hnode) (refer : list Z) (out : list deliv)
   : list hnode * list hnode * list Z * list deliv :=
   match fuel with
   | O => (arr, outside, refer, out)
@@ -127,24 +127,23 @@ Fixpoint atrigger (fuel : nat) (now maxId : Z) (arr outside : list hnode) (refer
       | [] => (arr, outside, refer, out)
       | top :: _ =>
           if now <? ndl (hn top) then (arr, outside, refer, out)
-          else if maxId <? nid (hn top) then atrigger f now maxId arr outside refer out   (* `continue` *)
           else if alive refer (hn top) then
             if 0 <? nper (hn top) then
               let arr1 := hupd arr 0 (set_deadline top (now + nper (hn top))) in
-              atrigger f now maxId (heap_fix arr1 (Z.to_nat (hidx top))) outside refer
+              atrigger f now (heap_fix arr1 (Z.to_nat (hidx top))) outside refer
                        (out ++ [(nid (hn top), ndl (hn top))])
             else
               let '(arr1, x) := heap_pop arr in
-              atrigger f now maxId arr1 (outside ++ [x]) (unrefer refer (nid (hn top)))
+              atrigger f now arr1 (outside ++ [x]) (unrefer refer (nid (hn top)))
                        (out ++ [(nid (hn top), ndl (hn top))])
           else
             let '(arr1, x) := heap_pop arr in
-            atrigger f now maxId arr1 (outside ++ [x]) refer out
+            atrigger f now arr1 (outside ++ [x]) refer out
       end
   end.
 
 Definition aschedule (s : ast) (d p : Z) : ast * out :=
-  let id := next_id_loop (Z.to_nat 10000) (anext s + 1) (arefer s) in
+  let id := alloc_id (anext s) (arefer s) in
   let blocked := sched_PendingQueueCapacity <=? Z.of_nat (length (apadd s)) in
   (mkA (aarr s) (aoutside s) (aclock s) (arefer s ++ [id]) id
        (apadd s ++ [mkNode id (aclock s + d + p) p]) (apdel s),
@@ -193,7 +192,7 @@ Definition astep (s : ast) (o : op) : ast * out :=
   | Pass n => (mkA (aarr s) (aoutside s) (aclock s + Z.max n 0) (arefer s) (anext s) (apadd s) (apdel s), ONone)
   | Tick =>
       let '(arr, outside, r, o) :=
-        atrigger (S (length (aarr s))) (aclock s) (anext s) (aarr s) (aoutside s) (arefer s) [] in
+        atrigger (S (length (aarr s))) (aclock s) (aarr s) (aoutside s) (arefer s) [] in
       (mkA arr outside (aclock s) r (anext s) (apadd s) (apdel s), ODeliv o)
   | Probe => (s, OProbe (aprobe s))
   end.
